@@ -121,8 +121,9 @@ def introspect(ctx):
     env = dict(os.environ)
     env.setdefault('REPLICAT_VERIF_GCL_SO', str(VERIF / '.work' / 'native' / 'libgcl.so'))
     for k in list(env):
-        if k.startswith(('REPLICAT_', 'S3_', 'S3C_', 'B2_', 'VFY_')) and k != 'REPLICAT_REPO' and k != 'REPLICAT_VERIF_GCL_SO':
+        if k.startswith(('REPLICAT_', 'S3_', 'S3C_', 'B2_', 'VFY_', 'VFA_')) and k != 'REPLICAT_REPO' and k != 'REPLICAT_VERIF_GCL_SO':
             del env[k]
+    env.pop('C19_EXTRA_BACKENDS', None)
     p = subprocess.run([py, str(INTROSPECT), str(ctx.REPO), str(CUSTOM), str(PYMOD)], capture_output=True, text=True, env=env,
                        cwd=str(VERIF), timeout=120)
     if p.returncode != 0:
@@ -417,6 +418,26 @@ def section(ctx):
     emit()
     emit('def optSteps : List OptStep := ' + llist('.' + s for s in steps))
     emit('def optFileMutex : List (List String) := ' + llist(llist(lstr(k) for k in g) for g in mutex))
+    # ---- how ANY backend's options are read (the schema `Options.customBackendRow` is built from): the validators of
+    # BaseBackendConfig.apply_known / apply_env (AST) and the `type=` of the actions `cli.parser_for_backend` creates — taken
+    # from the live parsers of every probed backend, among them the annotated probe `vfa` (str / int / bool / float /
+    # Optional / Union / string annotations, with and without defaults).  Not one and the same function for all of them
+    # (e.g. chosen by annotation) → `.other`, and the lemmas about `customBackendRow` stop compiling.
+    cli_tys, annotated = set(), 0
+    for b, bd in info['backends'].items():
+        for f in bd.get('fields', []):
+            annotated += f.get('annotation') is not None
+            if len(f['actions']) != 1:
+                cli_tys.add('other')
+            for a in f['actions']:
+                cli_tys.add(TY_CLI.get(a['type'], 'other') if a['cls'] == '_StoreAction' and a['nargs'] is None else 'other')
+    backend_cli_ty = cli_tys.pop() if len(cli_tys) == 1 else 'other'
+    emit(f'def optBackendCliTy : OptTy := .{backend_cli_ty}')
+    emit(f'def optBackendFileTy : OptTy := .{bfile_ty}')
+    emit(f'def optBackendEnvTy : OptTy := .{benv_ty}')
+    emit(f'def optBackendAnnotatedProbes : Nat := {annotated}')
+    ctx.notes['options:backend-schema'] = (f'cli type={backend_cli_ty} file validator={bfile_ty} env validator={benv_ty}; '
+                                           f'{annotated} annotated probe options')
     emit(f'def optApplyKnownRecognised : Bool := {"true" if ak_ok else "false"}')
     emit(f'def optSecondParseReusesNamespace : Bool := {"true" if ns_reused else "false"}')
     emit(f'def optSubcommandRequired : Bool := {"true" if info.get("subparsers_required") else "false"}')
